@@ -59,3 +59,20 @@ Example style_switch_example :
   | _ => False
   end.
 Proof. vm_compute. split; [discriminate | reflexivity]. Qed.
+
+From GFS Require Import AuditProofs.
+
+(** every string over {#,@}, both styles: the width is the sum of the per-character widths *)
+Theorem pad_width_is_the_sum_over_the_characters : forall st cs, pad_string cs ->
+  padding_chars_size st cs = fold_right (fun c acc => pad_char_size st c + acc) 0 cs.
+Proof. exact pad_size_is_additive. Qed.
+Print Assumptions pad_width_is_the_sum_over_the_characters.
+
+(** what a style switch does to every field: the pad characters are rewritten for the kept width; an unknown style number means the default style *)
+Theorem style_switch_rewrites_the_pad_characters : forall q z,
+  set_padding_style q z =
+  mkQ (q_dir q) (q_base q) (q_ext q)
+      (padding_chars (style_of_int z) (q_zfill q)) (Z.max 1 (q_zfill q)) (q_fs q) (style_of_int z).
+Proof. exact set_padding_style_exact. Qed.
+Print Assumptions style_switch_rewrites_the_pad_characters.
+
